@@ -37,6 +37,8 @@ CORPUS_KEYS = {
     "toplevel-shortcircuit-skipped-first-use": "C01 corpus toplevel-shortcircuit-skipped-first-use",
     "return-in-condition-sequence": "C01 corpus return-in-condition-sequence",
     "try-under-toplevel-if": "C01 corpus try-under-toplevel-if",
+    "if-inside-list-bracket": "C01 corpus if-inside-list-bracket",
+    "list-import-lost-in-toplevel-if": "C01 corpus list-import-lost-in-toplevel-if",
 }
 
 _uniq = itertools.count()
